@@ -326,6 +326,45 @@ func c14Sweep(seed uint64, tier string, build string, emit func(op, obs string),
 						Input: map[string]any{"build": build, "format": format, "logger": kind}, Expected: "user[2]", Actual: o.frame + " in " + o.payload})
 				}
 			}
+			if kind != "default" {
+				// asking again for WithSkip(n) gives a logger with skip n, whatever was done to the one handed out before
+				again := base.WithSkip(0).SetWriter(rec).SetErrorWriter(rec)
+				cc := &c14ctx{l: again, ctx: ctx, msg: "m"}
+				rec.take()
+				c14w4(cc, c14calls[4].f)
+				o := c14Observe(cc, rec, format)
+				emit(fmt.Sprintf("C14 v l Info 0 0 %d", len(cc.frames)), o.frame)
+				seen(fmt.Sprintf("%s|%s|%s|withskip-again", build, format, kind))
+				if o.frame != "user[0]" {
+					violate(violation{What: "WithSkip(n) requested a second time returned a logger that does not attribute n frames up",
+						Input:    map[string]any{"build": build, "format": format, "logger": kind, "sequence": "a := base.WithSkip(0); a.SetSkip(2); b := base.WithSkip(0); b.Info(...)"},
+						Expected: "user[0]", Actual: o.frame + " in " + o.payload})
+				}
+			}
+			// a std log bridge made while caller information was switched off attributes its records as soon as
+			// caller information is switched on (the flag is read per record)
+			{
+				base.SetSkip(0)
+				slog.RemoveFlags(slog.Lcaller)
+				late := slog.NewLogLogger(base, slog.InfoLevel)
+				slog.AddFlags(slog.Lcaller)
+				cc := &c14ctx{l: base, std: late, ctx: ctx, msg: "m"}
+				for _, call := range c14calls {
+					if call.recv != "b" {
+						continue
+					}
+					rec.take()
+					c14w4(cc, call.f)
+					o := c14Observe(cc, rec, format)
+					emit(fmt.Sprintf("C14 b 0 %d", len(cc.frames)), o.frame)
+					seen(fmt.Sprintf("%s|%s|%s|bridge-made-with-caller-off|%s", build, format, kind, call.name))
+					if o.frame != "user[0]" {
+						violate(violation{What: "a std log bridge built while caller information was off does not attribute its records after caller information was switched on",
+							Input:    map[string]any{"build": build, "format": format, "logger": kind, "entry_point": call.name, "sequence": "RemoveFlags(Lcaller); b := NewLogLogger(l, Info); AddFlags(Lcaller); b.Print(...)"},
+							Expected: "user[0]", Actual: o.frame + " in " + o.payload})
+					}
+				}
+			}
 			// two logical functions in one physical function (when the helper is inlined)
 			base.SetSkip(0)
 			c := &c14ctx{l: base, ctx: ctx, msg: "m"}
